@@ -4,8 +4,11 @@ A tree node is a dict
     {"kind": CALL|STATICCALL|DELEGATECALL|CALLCODE|CREATE|CREATE2 (how the *parent* invokes it; root: "TX"),
      "effects": subset string of "STL" (SSTORE slot0, TSTORE slot0, LOG1) done before the children,
      "value": "0" | "x" | "fwd" | "k1"   (value the parent passes),
-     "outcome": "return" | "revert" | "invalid" | "oob" | "stop",
+     "outcome": "return" | "revert" | "invalid" | "oob" | "stop" | "symfail" (x == 0 ? revert : INVALID) | "symmix" (x == 0 ? return : revert),
+     "post": subset string of "ST": SSTORE / TSTORE slot 0 *after* the node recorded its observations,
      "children": [nodes]}
+kind "SELFCALL" is a value-bearing CALL of the parent to its own address (2 bytes of calldata make the code stop at once); it has no contract of its own.
+Every call forwards the root's calldata word x as 32 bytes of calldata, so callees can branch on it.
 Every node is a contract at its own address.  A node's payload (returned or
 reverted) is a fixed-layout record of everything it can observe after its
 children ran, including each child's success flag, RETURNDATASIZE and returned
@@ -39,8 +42,17 @@ def number(tree):
     return nodes
 
 
+def is_self(n):
+    return n["kind"] == "SELFCALL"
+
+
 def payload_words(n):
+    if is_self(n):
+        return 0
     return OWN_WORDS + sum(2 + payload_words(c) for c in n["children"])
+
+
+XARG = 0x3C0  # the calldata word x is kept here and passed on to every callee
 
 
 def is_create(n):
@@ -73,7 +85,7 @@ def value_code(n, parent_is_root):
 
 def node_body(n, codes, is_root):
     """items for the behaviour of node n (without the dump dispatcher)"""
-    items = []
+    items = ["PUSH0", "CALLDATALOAD", ("push", XARG), "MSTORE"]
     for e in n["effects"]:
         if e == "S":
             items += [("push", n["marker"]), "PUSH0", "SSTORE"]
@@ -86,7 +98,11 @@ def node_body(n, codes, is_root):
     for c in n["children"]:
         w = payload_words(c)
         flag_off, rds_off, win_off = off, off + 32, off + 64
-        if is_create(c):
+        if is_self(c):
+            items += ["PUSH0", "PUSH0", ("push", 2), "PUSH0"] + value_code(c, is_root) + ["ADDRESS", ("push", 0xFFFF), "CALL"]
+            items += [("push", flag_off), "MSTORE"]
+            items += ["RETURNDATASIZE", ("push", rds_off), "MSTORE"]
+        elif is_create(c):
             init = codes[c["id"]]["init"]
             # copy init code to scratch memory at 0x2000 from this contract's code (appended as data)
             items += [("sizeof", f"init{c['id']}"), ("offsetof", f"init{c['id']}"), ("push", 0x2000), "CODECOPY"]
@@ -99,7 +115,7 @@ def node_body(n, codes, is_root):
             # branch, so copy exactly RETURNDATASIZE bytes when it fits the window statically (payloads do)
             items += ["RETURNDATASIZE", "PUSH0", ("push", win_off), "RETURNDATACOPY"]
         else:
-            items += [("push", 32 * w), ("push", win_off), "PUSH0", "PUSH0"]
+            items += [("push", 32 * w), ("push", win_off), ("push", 32), ("push", XARG)]
             if c["kind"] in ("CALL", "CALLCODE"):
                 items += value_code(c, is_root)
             items += [("push", c["addr"]), "GAS" if False else ("push", 0xFFFF), c["kind"]]
@@ -110,6 +126,11 @@ def node_body(n, codes, is_root):
     own = [("push", n["marker"]), "CALLER", "ORIGIN", "ADDRESS", "CALLVALUE", ["PUSH0", "SLOAD"], ["PUSH0", "TLOAD"], "SELFBALANCE", "CODESIZE"]
     for i, o in enumerate(own):
         items += (o if isinstance(o, list) else [o]) + [("push", PBASE + 32 * i), "MSTORE"]
+    for e in n.get("post", ""):
+        if e == "S":
+            items += [("push", n["marker"] + 0x20000), "PUSH0", "SSTORE"]
+        elif e == "T":
+            items += [("push", n["marker"] + 0x30000), "PUSH0", "TSTORE"]
     return items
 
 
@@ -125,6 +146,10 @@ def outcome_code(n, size_words, extra=None):
         return ["STOP"]
     if o == "oob":
         return [("push", 0xFFFF), "PUSH0", "PUSH0", "RETURNDATACOPY", "STOP"]
+    if o == "symfail":  # x == 0 ? revert(payload) : INVALID   -- two failing paths
+        return ["PUSH0", "CALLDATALOAD", ("ref", "sf_inv"), "JUMPI", ("push", 32 * size_words), ("push", PBASE), "REVERT", ("label", "sf_inv"), "INVALID"]
+    if o == "symmix":  # x == 0 ? return(payload) : revert(payload)
+        return ["PUSH0", "CALLDATALOAD", ("ref", "sm_rev"), "JUMPI", ("push", 32 * size_words), ("push", PBASE), "RETURN", ("label", "sm_rev"), ("push", 32 * size_words), ("push", PBASE), "REVERT"]
     raise ValueError(o)
 
 
@@ -134,6 +159,8 @@ def build(tree):
     codes = {}
     # children first (init code of created children is embedded in the parent)
     for n in reversed(nodes):
+        if is_self(n):
+            continue
         is_root = n["id"] == 0
         body = node_body(n, codes, is_root)
         pw = payload_words(n)
@@ -158,7 +185,7 @@ def build(tree):
             dumps += [("push", 1), "PUSH0", "MSTORE8"]  # 1 byte of calldata = dump request
             dump_targets = []
             for m in nodes[1:]:
-                if not is_create(m):
+                if not is_create(m) and not is_self(m):
                     dump_targets.append(("addr", m["addr"]))
             # created children: their flag word (address) sits at a static payload offset
             for m, flag_off in created_flag_offsets(tree):
@@ -171,13 +198,15 @@ def build(tree):
                     dumps += tgt + ["EXTCODESIZE", ("push", off), "MSTORE"] + tgt + ["EXTCODEHASH", ("push", off + 32), "MSTORE"]
                     off += 64
             total_words = (off - PBASE) // 32
-            code = asm.assemble(body + dumps + outcome_code(n, total_words) + datas)
+            selfstop = [("push", 2), "CALLDATASIZE", "EQ", "ISZERO", ("ref", "go"), "JUMPI", "STOP", ("label", "go")]
+            code = asm.assemble(selfstop + body + dumps + outcome_code(n, total_words) + datas)
             codes[n["id"]] = {"code": code, "words": total_words}
         else:
             lab = "behave"
-            code = asm.assemble(["CALLDATASIZE", "ISZERO", ("ref", lab), "JUMPI"] + dump_code() + [("label", lab)] + body + outcome_code(n, pw) + datas)
+            selfstop = [("push", 2), "CALLDATASIZE", "EQ", "ISZERO", ("ref", "go"), "JUMPI", "STOP", ("label", "go")]
+            code = asm.assemble(selfstop + [("push", 1), "CALLDATASIZE", "EQ", "ISZERO", ("ref", lab), "JUMPI"] + dump_code() + [("label", lab)] + body + outcome_code(n, pw) + datas)
             codes[n["id"]] = {"code": code}
-    accounts = {n["addr"]: codes[n["id"]]["code"] for n in nodes if not is_create(n)}
+    accounts = {n["addr"]: codes[n["id"]]["code"] for n in nodes if not is_create(n) and not is_self(n)}
     return accounts, nodes, codes[0]["words"]
 
 
@@ -190,7 +219,8 @@ def created_flag_offsets(tree):
         for c in n["children"]:
             if is_create(c):
                 out.append((c, off))
-            walk(c, off + 64)
+            if not is_self(c):
+                walk(c, off + 64)
             off += 32 * (2 + payload_words(c))
 
     walk(tree, PBASE)
@@ -198,11 +228,11 @@ def created_flag_offsets(tree):
 
 
 def tree_str(n):
-    s = f"{n['kind']}[{n['effects'] or '-'},{n['value']},{n['outcome']}]"
+    s = f"{n['kind']}[{n['effects'] or '-'},{n['value']},{n['outcome']}{',post=' + n['post'] if n.get('post') else ''}]"
     if n["children"]:
         s += "(" + ",".join(tree_str(c) for c in n["children"]) + ")"
     return s
 
 
-def mk(kind, effects="", value="0", outcome="return", children=()):
-    return {"kind": kind, "effects": effects, "value": value, "outcome": outcome, "children": list(children)}
+def mk(kind, effects="", value="0", outcome="return", children=(), post=""):
+    return {"kind": kind, "effects": effects, "value": value, "outcome": outcome, "children": list(children), "post": post}
